@@ -697,3 +697,36 @@ Proof.
   - assert (M * (L - R) < 0) by (apply Z.mul_pos_neg; lia). lia.
   - assert (0 <= M * (L - R)) by (apply Z.mul_nonneg_nonneg; lia). lia.
 Qed.
+
+(* ------------------------------------------------------------------ atom order *)
+Lemma reorder_id : forall (X : Type) (d : X) (l : list X), reorder d (seq 0 (length l)) l = l.
+Proof.
+  intros X d l. unfold reorder. induction l as [|x r IH]; cbn; [reflexivity|].
+  f_equal. rewrite <- seq_shift, map_map. exact IH.
+Qed.
+
+(* when the walk over the topology visits the atoms in index order the as-found code computes the specified call *)
+Lemma as_found_view_contiguous : forall c,
+  length (c_resid c) = length (c_elems c) ->
+  as_found_view (seq 0 (length (c_elems c))) c = c.
+Proof.
+  intros [K M t2 pts tbl ch pr el rs nr md sl fr] H. cbn in H. unfold as_found_view. cbn -[reorder seq].
+  rewrite reorder_id. rewrite <- H, reorder_id. reflexivity.
+Qed.
+
+(* residues that are contiguous blocks in index order (non-decreasing residue index) are walked in index order *)
+Lemma walk_order_sorted_example :
+  walk_order 3 [0; 0; 1; 1; 1; 2]%nat = seq 0 6 /\ walk_order 2 [0; 1; 0; 1]%nat = [0; 2; 1; 3]%nat.
+Proof. split; reflexivity. Qed.
+
+(* as found, on an interleaved topology: atoms 0 (C, residue 0) and 1 (H, residue 1) far apart, walked as [1; 0]:
+   the carbon is given the hydrogen's radius and residue *)
+Definition order_witness : call :=
+  {| c_K := 1; c_M := 1; c_tiny2 := 1; c_pts := [(1, 0, 0)]; c_tbl := [("C"%string, 17); ("H"%string, 12)];
+     c_change := []; c_probe := 0; c_elems := ["C"%string; "H"%string]; c_resid := [1%nat; 0%nat]; c_nres := 2;
+     c_mode := AtomMode; c_sel := None; c_frames := [[(0, 0, 0); (1000, 0, 0)]] |}.
+
+Lemma atom_order_current_refuted_lemma :
+  shrake_rupley true (sched_serial 1) order_witness = Ok [Some [289; 144]] /\
+  shrake_rupley true (sched_serial 1) (as_found_view (walk_order 2 [1%nat; 0%nat]) order_witness) = Ok [Some [144; 289]].
+Proof. split; vm_compute; reflexivity. Qed.
